@@ -78,12 +78,16 @@ func (e *Engine) RunReplay(o *Outcome) map[string]interface{} {
 	if r == nil {
 		return nil
 	}
-	rec := map[string]interface{}{"template": r.Template, "test": r.TestName, "package": r.PkgDir}
 	data, err := r.Data(o.fail.Result.Model, o.fail.Failing.Goal.String())
 	if err != nil {
-		rec["error"] = "model does not determine the replay inputs: " + err.Error()
-		return rec
+		return map[string]interface{}{"template": r.Template, "error": "model does not determine the replay inputs: " + err.Error()}
 	}
+	return e.runReplayData(r, data)
+}
+
+// runReplayData fills the template and runs it against the real code.
+func (e *Engine) runReplayData(r *Replayer, data map[string]interface{}) map[string]interface{} {
+	rec := map[string]interface{}{"template": r.Template, "test": r.TestName, "package": r.PkgDir}
 	rec["inputs"] = data
 	tmplPath := filepath.Join(VerifDir(), "replay", "templates", r.Template)
 	if _, err := os.Stat(tmplPath); err != nil {
